@@ -112,7 +112,7 @@ def c06(tier):
     # the allocator protocol when the allocator itself fails: the fault sweep of C09 (every allocator call of every scenario made to throw in turn)
     # judged by the allocator ledger (a block handed back twice / never after a failed growth shows up here, not on any fault-free path)
     fcfgs = [c for c in vec.FAULT_QUICK + (vec.FAULT_THOROUGH if tier == "thorough" else []) if c.flav != "f"]
-    c3, v3, i3 = sets.run_engine("C06", tier, fcfgs, 28, 28, extra_args=["--wide"] if tier == "thorough" else [], crash_owners=("C06", "C09"))
+    c3, v3, i3 = sets.run_engine("C06", tier, fcfgs, 30, 30, extra_args=["--wide"] if tier == "thorough" else [], crash_owners=("C06", "C09"))
     cov, viols, inc = sets.merge_cov(cov, c3), viols + v3, inc + i3
     cov["rule"] = VEC_RULE + ("Judge: allocator ledger (pointer -> byte count, allocator family) checked on every allocate/deallocate/reallocate, zero outstanding "
                               "blocks when all containers of a history are destroyed; reallocate only for relocatable element types with true old capacity "
@@ -259,12 +259,12 @@ def c08(tier):
 def c09(tier):
     t0 = time.time()
     cfgs = vec.FAULT_QUICK + (vec.FAULT_THOROUGH if tier == "thorough" else [])
-    cov, viols, inc = sets.run_engine("C09", tier, cfgs, 28, 28, extra_args=["--wide"] if tier == "thorough" else [], crash_owners=("C09",), any_prop=True)
+    cov, viols, inc = sets.run_engine("C09", tier, cfgs, 30, 30, extra_args=["--wide"] if tier == "thorough" else [], crash_owners=("C09",), any_prop=True)
     scfgs = sets.SETFAULT_QUICK + (sets.SETFAULT_THOROUGH if tier == "thorough" else [])
     c2, v2, i2 = sets.run_engine("C09", tier, scfgs, 13, 13, crash_owners=("C09",), any_prop=True)
     cov, viols, inc = sets.merge_cov(cov, c2), viols + v2, inc + i2
     ob = cov.get("observed", {})
-    cov["rule"] = ("fault enumeration: scenario = (configuration, state {size 0/2/5 x natural, heap-full, exact room, more room}, operation (27 forms), position "
+    cov["rule"] = ("fault enumeration: scenario = (configuration, state {size 0/2/5 x natural, heap-full, exact room, more room}, operation (29 forms incl. swap / swap2 with a vector of the same type), position "
                    "{begin, mid, end}, count); each scenario is run fault-free to count its M throwing-capable events (element value/default/copy construction, "
                    "copy assignment, allocator allocate/reallocate), then re-created M times with the k-th event throwing. After each fault: live elements == "
                    "visible elements, all visible alive and not moved-from, allocator ledger == blocks owned, follow-up script, clean destruction; for the "
